@@ -63,6 +63,8 @@ class Poly:
         return self._c(o) - self
 
     def __mul__(self, o):
+        if isinstance(o, Vector):
+            return NotImplemented             # scalar * vector is the Vector's business (__rmul__)
         o = self._c(o)
         t = {}
         for k1, c1 in self.t.items():
@@ -176,8 +178,8 @@ def replay_case(case, tag, rng, tier):
     for tname in ("int", "fraction", "decimal", "float", "user"):
         cv = CONV[tname]
         va, vb = Vector(*[cv(x) for x in a]), Vector(*[cv(x) for x in b])
-        ops = {"add": lambda: list(va + vb), "sub": lambda: list(va - vb), "neg": lambda: list(-va), "smul": lambda: list(va * k),
-               "rsmul": lambda: list(k * va), "dot": lambda: [va * vb], "cross": lambda: list(va.cross(vb)),
+        ops = {"add": lambda: list(va + vb), "sub": lambda: list(va - vb), "neg": lambda: list(-va), "smul": lambda: list(va * (cv(k) if rng.random() < 0.5 else k)),
+               "rsmul": lambda: list((cv(k) if rng.random() < 0.5 else k) * va), "dot": lambda: [va * vb], "cross": lambda: list(va.cross(vb)),
                "frompts": lambda: list(Vector(Point(*[cv(x) for x in a]), Point(*[cv(x) for x in b])))}
         for op, f in ops.items():
             got, exc = call(f)
